@@ -97,6 +97,22 @@ def split_dump(path):
     return [p for p in parts if p.strip()]
 
 
+def split_sim_traces(prefix_dir, prefix="tr"):
+    """All states of all behaviours written by `-simulate file=<dir>/<prefix>,num=N` (one text per state)."""
+    import glob
+    out = []
+    for path in sorted(glob.glob(os.path.join(prefix_dir, prefix + "_*"))):
+        with open(path) as f:
+            data = f.read()
+        data = re.sub(r"^=+\s*$", "", data, flags=re.M)
+        parts = re.split(r"^STATE_\d+ ==\s*\n", data, flags=re.M)[1:]
+        for p in parts:
+            p = re.sub(r"^\\\*.*$", "", p, flags=re.M)
+            if p.strip():
+                out.append(p)
+    return out
+
+
 def parse_state(txt):
     st = {}
     for chunk in re.split(r"^/\\ ", txt, flags=re.M):
